@@ -214,6 +214,18 @@ class SessionModel(object):
                 ph.fields['_receive_buffer'] = Opaque('buf', 'bytes')
                 ph.fields['fourbytesas'] = Opaque('proto.fourbytesas', 'bool')
                 s.heap[w.peering].fields['bgp_id'] = Opaque('peering.bgp_id')
+            # any history: every scalar field that some method other than __init__ writes is unknown
+            for oname, oid in (('fsm', w.fsm), ('peering', w.peering), ('proto', poid)):
+                if oid is None:
+                    continue
+                hh = s.heap[oid]
+                for fld in self._mutable_fields():
+                    if fld in self.MODELLED or fld not in hh.fields:
+                        continue
+                    cur = hh.fields[fld]
+                    if isinstance(cur, Const) and not isinstance(cur.value, (tuple, dict, list)):
+                        kind = 'bool' if isinstance(cur.value, bool) else None
+                        hh.fields[fld] = Opaque('%s.%s' % (oname, fld), kind)
             for k, v in over.items():
                 obj, _, fld = k.partition('__')
                 oid = {'fsm': w.fsm, 'peering': w.peering, 'proto': poid}[obj]
@@ -226,6 +238,31 @@ class SessionModel(object):
             s.base = s.counter
             res.append((poid, s))
         return res
+
+    MODELLED = {'state', 'protocol', 'bgp_peering', 'fsm', 'estab_protocol', 'handler', 'factory',
+                'transport', 'disconnected', '_receive_buffer', 'hold_time', 'keep_alive_time',
+                'allow_automatic_start', 'connect_retry_counter', 'fourbytesas', 'bgp_id',
+                'connect_retry_time', 'idle_hold_time', 'delay_open_time', 'delay_open'}
+
+    def _mutable_fields(self):
+        if getattr(self, '_mf', None) is None:
+            import ast as _ast
+            mf = set()
+            for f in self.prog.all_functions():
+                if f.name == '__init__':
+                    continue
+                for n in _ast.walk(f.node):
+                    tgts = []
+                    if isinstance(n, _ast.Assign):
+                        tgts = n.targets
+                    elif isinstance(n, (_ast.AugAssign, _ast.AnnAssign)):
+                        tgts = [n.target]
+                    for t in tgts:
+                        for tt in (t.elts if isinstance(t, (_ast.Tuple, _ast.List)) else [t]):
+                            if isinstance(tt, _ast.Attribute):
+                                mf.add(tt.attr)
+            self._mf = mf
+        return self._mf
 
     # ------------------------------------------------------------------ running
     def run_method(self, st, oid, meth, args=(), kwargs=None):
